@@ -286,7 +286,8 @@ macro_rules! impl_log2_bounds_for_float {
                     match self.decode() {
                         Ok((man, exp)) => {
                             let (est_lb, est_ub) = man.log2_bounds();
-                            (est_lb + exp as f32, est_ub + exp as f32)
+                            // the f32 additions round to nearest: widen to keep the enclosure
+                            (next_down(est_lb + exp as f32), next_up(est_ub + exp as f32))
                         },
                         Err(Nan) => panic!("calling log2 on nans is forbidden!"),
                         Err(Infinite) => (f32::INFINITY, f32::INFINITY),
